@@ -588,8 +588,8 @@ theorem WF.mapVals {q : Bits} {t : Trie Bucket} (f : Bucket → Bucket)
   | leaf hb => exact WF.leaf (hf _ _ hb)
   | inner hme _ _ ihl ihr => exact WF.inner hme ihl ihr
 
-theorem map_set_ids (ns : List Node) (id : Bits) (bad : Bool) (rtt : Nat) :
-    (ns.map (fun x => if x.id == id then { x with bad := bad, rtt := rtt } else x)).map (·.id) = ns.map (·.id) := by
+theorem map_set_ids (ns : List Node) (id : Bits) (failed : Nat) (recent : Bool) (rtt : Nat) :
+    (ns.map (fun x => if x.id == id then { x with failed := failed, recent := recent, rtt := rtt } else x)).map (·.id) = ns.map (·.id) := by
   induction ns with
   | nil => rfl
   | cons x xs ih =>
@@ -601,8 +601,8 @@ theorem removeBad_inv (rt : RT) (h : WF m w rt.me [] rt.trie) : WF m w rt.me [] 
   intro q b hb
   exact hb.of_sublist List.filter_sublist
 
-theorem setNode_inv (rt : RT) (id : Bits) (bad : Bool) (rtt : Nat) (h : WF m w rt.me [] rt.trie) :
-    WF m w rt.me [] (rt.setNode id bad rtt).trie := by
+theorem setNode_inv (rt : RT) (id : Bits) (failed : Nat) (recent : Bool) (rtt : Nat) (h : WF m w rt.me [] rt.trie) :
+    WF m w rt.me [] (rt.setNode id failed recent rtt).trie := by
   apply WF.mapVals _ _ h
   intro q b hb
   refine ⟨hb.pfx, by simpa using hb.cap, ?_, ?_, hb.depth⟩
@@ -635,7 +635,7 @@ theorem step_inv (hm : 1 ≤ m) (rt : RT) (op : Op) (hv : op.valid w) (h : WF m 
     have := add_inv hm rt n hv h
     exact ⟨by simpa [step, this.2.1] using this.1, this.2.1⟩
   | removeBad => exact ⟨removeBad_inv rt h, rfl⟩
-  | setNode id bad rtt => exact ⟨setNode_inv rt id bad rtt h, rfl⟩
+  | setNode id failed recent rtt => exact ⟨setNode_inv rt id failed recent rtt h, rfl⟩
 
 theorem run_inv' (hm : 1 ≤ m) (ops : List Op) (rt : RT) (hv : ∀ op ∈ ops, op.valid w) (h : WF m w rt.me [] rt.trie) :
     WF m w rt.me [] (run m rt ops).trie ∧ (run m rt ops).me = rt.me := by
